@@ -62,9 +62,9 @@ theorem solo_takeover (L t : Nat) (f : Srv) (h : Calm L t f) :
     refine ⟨hl1, hL0, hid1 ▸ hLf, ?_⟩
     rw [hcur]; cases c; simp_all
   obtain ⟨f', tk, hts, hl, hid⟩ := takeover_from_watching (deadLeaderMinRound - c.static) c.static L t f1
-    (by unfold deadLeaderMinRound; omega) hw
-  refine ⟨deadLeaderMinRound - c.static + 1 + 1, f', tk, by unfold deadLeaderMinRound; omega,
-    by unfold deadLeaderMinRound; omega, ?_, hl, hid.trans hid1⟩
+    (by unfold deadLeaderMinRound Drummer.Gen.deadLeaderMinRound; omega) hw
+  refine ⟨deadLeaderMinRound - c.static + 1 + 1, f', tk, by unfold deadLeaderMinRound Drummer.Gen.deadLeaderMinRound; omega,
+    by unfold deadLeaderMinRound Drummer.Gen.deadLeaderMinRound; omega, ?_, hl, hid.trans hid1⟩
   rw [turns, ht]; simp only; rw [hts, hid1]
 
 /-- the losers: a follower that does not know the winner yet and looks at the winner's record follows it — counter
